@@ -1,4 +1,5 @@
 import PicoVerif.Model.P8File
+import PicoVerif.Lemmas.C03
 /-! C03 — `.p8` write/read round trip preserves the whole cart. -/
 namespace Pico.C03
 open Pico.Sections Pico.P8File Pico.P8scii
@@ -37,32 +38,41 @@ theorem ascii_identity : asciiIdentityB = true := by decide +kernel
 
 /-- **C03.sections_roundtrip**: each section's text decodes to the section's bytes. -/
 theorem gfx_rt (m : Bytes) (h : m.length = 0x2000) : gfxFromLines (gfxToLines m) = .ok m := by
-  sorry
+  have := gfx_rt_tail m h [] rfl
+  simpa using this
 theorem hexrows_rt (m : Bytes) : hexFromLines (hexToLines 128 m) = .ok m := by
-  sorry
+  exact C03L.hexFromLines_hexToLines 128 (by decide) m
 theorem sfx_rt (m : Bytes) (h : m.length = 0x1100) :
     ∃ ls, sfxToLines m = some ls ∧ sfxFromLines ls = .ok m := by
-  sorry
+  exact sfx_rt' m h
 theorem music_rt (m : Bytes) (h : m.length % 4 = 0) :
     ∃ ls, musicToLines m = some ls ∧ musicFromLines ls = .ok (musicNorm m) := by
-  sorry
+  have := music_rt_tail [] rfl m h
+  simpa using this
 
 /-- **C03.readline_concat**: splitting at line ends and re-joining is the identity. -/
 theorem readline_concat (s : List Nat) : (splitLinesU s).flatten = s := by
-  sorry
+  have := splitLinesAux_flatten (· == 10) s []
+  simpa [splitLinesU] using this
 
 /-- **C03.roundtrip**: writing any well-formed cart and reading the file back yields the same cart
 (final newline supplied, the one unrepresentable music bit cleared). -/
 theorem roundtrip (c : Cart) (h : WFCart c) :
     ∃ f, writeP8 tbl c = some f ∧ readP8 tbl f = .ok (normCart c) := by
-  sorry
+  exact C03L.roundtrip_core c h.gfx h.sfx (by rw [h.music]) h.label h.nosec
 
 /-- **C03.rewrite_identical**: re-writing the re-read cart produces an identical file. -/
 theorem rewrite_identical (c : Cart) (h : WFCart c) : writeP8 tbl (normCart c) = writeP8 tbl c := by
-  sorry
+  exact (fun _ => C03L.write_norm c) h
 
 /-- the normalised cart is again well-formed (so the cycle can be repeated) -/
 theorem norm_wf (c : Cart) (h : WFCart c) : WFCart (normCart c) := by
-  sorry
+  refine ⟨h.gfx, h.gff, h.map, h.sfx, ?_, h.label, ?_⟩
+  · show (musicNorm c.music).length = 0x100
+    rw [C03L.musicNorm_length]; exact h.music
+  · intro line hl
+    apply h.nosec
+    have : luaLines (normCart c).code = luaLines c.code := congrArg splitLinesU (C03L.luaText_norm c.code)
+    rw [← this]; exact hl
 
 end Pico.C03
